@@ -3,7 +3,7 @@
 use crate::deep::ownership_audit;
 use crate::disk::SimDisk;
 use crate::rng::{mix, Rng};
-use crate::stall::{api, draw_sched, reset_marks, Sched, SchedPlan, K_BOUNDARY, K_OTHER, LAST_STATS};
+use crate::stall::{api, draw_sched, reset_marks, Sched, SchedPlan, TaskInfo, K_BEGIN_READ, K_BEGIN_WRITE, K_BOUNDARY, K_COMMIT, K_OTHER, LAST_STATS};
 use redb::{
     Database, Durability, MultimapTableDefinition, ReadableDatabase, ReadableMultimapTable, ReadableTable,
     ReadableTableMetadata, Savepoint, TableDefinition, WriteTransaction,
@@ -70,6 +70,8 @@ pub enum Scenario {
     Shared { tables: Vec<Vec<SOp>>, prefill: u32, sp_concurrent: bool, sp_drop_racing: bool, abort: bool, durable: bool },
     /// the Database is dropped by one task while another holds a live write transaction (C20, C03)
     Lifecycle { ops: Vec<(u64, u32)>, reader: bool, commit: bool },
+    /// compact() on one task while another ends a write transaction and holds a savepoint / reader (C13)
+    Compact { ops: Vec<(u64, u32)>, prefill: u32, savepoint: bool, reader: bool, commit: bool },
 }
 
 #[derive(Clone, Debug, Serialize, Deserialize, PartialEq)]
@@ -311,7 +313,7 @@ fn close_checks(disk: &SimDisk, out: &Shared) {
 fn writer_task(_wi: usize, db: &Database, txns: &[WTxn], out: &Shared, commits: &Mutex<Vec<Commit>>) {
     let mut sps: Vec<Savepoint> = vec![];
     for t in txns {
-        api(K_BOUNDARY);
+        api(K_BEGIN_WRITE);
         let mut txn = match db.begin_write() {
             Ok(t) => t,
             Err(e) => return viol(out, "C03", "begin_write", format!("{e}")),
@@ -370,7 +372,7 @@ fn writer_task(_wi: usize, db: &Database, txns: &[WTxn], out: &Shared, commits: 
                 return Ok(None);
             }
             let call_ev = ev();
-            api(K_BOUNDARY);
+            api(K_COMMIT);
             txn.commit()?;
             let ret_ev = ev();
             Ok(Some(Commit { version, call_ev, ret_ev, ins: t.ins.clone(), rem: t.rem.clone() }))
@@ -400,7 +402,7 @@ fn writer_task(_wi: usize, db: &Database, txns: &[WTxn], out: &Shared, commits: 
 fn reader_task(ri: usize, db: &Database, rp: &RPlan, out: &Shared, reads: &Mutex<Vec<ReadObs>>) {
     for _ in 0..rp.reads {
         let call_ev = ev();
-        api(K_BOUNDARY);
+        api(K_BEGIN_READ);
         let txn = match db.begin_read() {
             Ok(t) => t,
             Err(e) => return viol(out, "C02", "begin_read", format!("{e}")),
@@ -595,7 +597,7 @@ fn shared(p: &Plan, tables: &[Vec<SOp>], prefill: u32, sp_concurrent: bool, sp_d
             drop(sp);
         })
     });
-    api(K_BOUNDARY);
+    api(if abort { K_BOUNDARY } else { K_COMMIT });
     let end = if abort { txn.abort().map_err(|e| e.to_string()) } else { txn.commit().map_err(|e| e.to_string()) };
     if let Some(d) = dropper {
         let _ = d.join();
@@ -729,7 +731,7 @@ fn lifecycle(p: &Plan, ops: &[(u64, u32)], reader: bool, commit: bool, out: &Sha
                     }
                 }
             }
-            api(K_BOUNDARY);
+            api(if commit { K_COMMIT } else { K_BOUNDARY });
             if commit { txn.commit()? } else { txn.abort()? }
             Ok(())
         })();
@@ -789,6 +791,137 @@ fn lifecycle(p: &Plan, ops: &[(u64, u32)], reader: bool, commit: bool, out: &Sha
 }
 
 // ---------------------------------------------------------------------------------------------
+// C13 under schedules: compact() racing the end of a write transaction
+
+fn compact_race(p: &Plan, ops: &[(u64, u32)], prefill: u32, savepoint: bool, reader: bool, commit: bool, out: &Shared) {
+    let disk = SimDisk::new(vec![]);
+    disk.st().record = false;
+    let db = match builder(p).create_with_backend(disk.clone()) {
+        Ok(d) => d,
+        Err(e) => return viol(out, "C13", "create", format!("create failed: {e}")),
+    };
+    let mut model: BTreeMap<u64, Vec<u8>> = BTreeMap::new();
+    {
+        // fragmented start: fill, then delete every other key
+        let t = db.begin_write().unwrap();
+        {
+            let mut d = t.open_table(D).unwrap();
+            for k in 0..prefill as u64 {
+                let v = val(0, k, 60 + (k as u32 * 97) % (2 * p.page_size));
+                d.insert(k, v.as_slice()).unwrap();
+                model.insert(k, v);
+            }
+        }
+        t.commit().unwrap();
+        let t = db.begin_write().unwrap();
+        {
+            let mut d = t.open_table(D).unwrap();
+            for k in (0..prefill as u64).step_by(2) {
+                d.remove(k).unwrap();
+                model.remove(&k);
+            }
+        }
+        t.commit().unwrap();
+    }
+    let rtxn = if reader { db.begin_read().ok() } else { None };
+    let txn = db.begin_write().unwrap();
+    let done = Arc::new(AtomicBool::new(false));
+    let held_since = Arc::new(AtomicU64::new(0));
+    let released = Arc::new(AtomicU64::new(0));
+    let (done_w, held_w, out_w, ops_w, released_w) = (done.clone(), held_since.clone(), out.clone(), ops.to_vec(), released.clone());
+    let w = shuttle::thread::spawn(move || {
+        let mut sp = None;
+        let r = (|| -> Result<(), redb::Error> {
+            if savepoint {
+                api(K_BOUNDARY);
+                sp = Some(txn.ephemeral_savepoint()?);
+            }
+            held_w.store(ev(), Ordering::SeqCst);
+            {
+                let mut d = txn.open_table(D)?;
+                for (k, len) in &ops_w {
+                    api(K_OTHER);
+                    d.insert(*k, val(1, *k, *len).as_slice())?;
+                }
+            }
+            api(if commit { K_COMMIT } else { K_BOUNDARY });
+            if commit { txn.commit()? } else { txn.abort()? }
+            Ok(())
+        })();
+        if let Err(e) = r {
+            viol(&out_w, "C13", "writer-error", format!("{e}"));
+        }
+        // keep the savepoint / reader alive until the compaction call has returned
+        let mut spins = 0u64;
+        while !done_w.load(Ordering::SeqCst) {
+            api(K_OTHER);
+            shuttle::thread::yield_now();
+            spins += 1;
+            if spins > 200_000 {
+                break;
+            }
+        }
+        released_w.store(ev(), Ordering::SeqCst);
+        api(K_BOUNDARY);
+        drop(sp);
+        drop(rtxn);
+    });
+    let done_c = done.clone();
+    let c = shuttle::thread::spawn(move || {
+        let mut db = db;
+        api(K_BOUNDARY);
+        let res = db.compact().map_err(|e| e.to_string());
+        let ret = ev();
+        done_c.store(true, Ordering::SeqCst);
+        (db, res, ret)
+    });
+    let _ = w.join();
+    let Ok((db, res, ret)) = c.join() else {
+        return viol(out, "C13", "panic", format!("compact() panicked: {}", LAST_PANIC.with(|p| p.borrow().clone())));
+    };
+    // the savepoint / reader counts as alive for the whole call only if it was released after
+    // compact() had returned
+    let pinned = (savepoint || reader) && released.load(Ordering::SeqCst) > ret;
+    if (savepoint || reader) && !pinned {
+        // the writer gave up waiting (step budget of its wait loop): nothing to judge about refusal
+    }
+    match (&res, pinned) {
+        (Ok(_), true) => viol(out, "C13", "compact-not-refused", format!("compact() returned {res:?} although a savepoint ({savepoint}) or read transaction ({reader}) was alive for the whole call")),
+        (Err(e), false) if !(savepoint || reader) => viol(out, "C13", "compact-error", format!("compact() failed with nothing alive: {e}")),
+        (Err(_), false) => {}
+        (Err(e), true) => {
+            if !(e.contains("avepoint") || e.contains("ransaction")) {
+                viol(out, "C13", "compact-error", format!("compact() refused with an unexpected error: {e}"));
+            }
+        }
+        (Ok(_), false) => {}
+    }
+    if commit {
+        for (k, len) in ops {
+            model.insert(*k, val(1, *k, *len));
+        }
+    }
+    let got = (|| -> Result<Vec<(u64, Vec<u8>)>, redb::Error> { Ok(dump_d(&db.begin_read()?.open_table(D)?)?) })();
+    match got {
+        Ok(d) => {
+            if d != model.into_iter().collect::<Vec<_>>() {
+                viol(out, "C13", "contents", "table contents changed across the compaction race".into());
+            }
+        }
+        Err(e) => viol(out, "C13", "read-error", format!("{e}")),
+    }
+    let o = ownership_audit(&db);
+    if !o.skipped {
+        out.lock().unwrap().audits += 1;
+        for (tag, d) in o.problems {
+            viol(out, "C06", &tag, d);
+        }
+    }
+    drop(db);
+    close_checks(&disk, out);
+}
+
+// ---------------------------------------------------------------------------------------------
 // plans
 
 fn draw_wtxn(rng: &mut Rng, keyspace: u64, page: u32) -> WTxn {
@@ -815,6 +948,7 @@ pub fn draw_plan(seed: u64, exec: u64, prop: &str, thorough: bool) -> Plan {
     let which = match prop {
         "C16" => 1,
         "C20" => 2,
+        "C13" => 3,
         "C02" => 0,
         _ => {
             if rng.chance(1, 8) {
@@ -833,11 +967,22 @@ pub fn draw_plan(seed: u64, exec: u64, prop: &str, thorough: bool) -> Plan {
             let readers: Vec<RPlan> = (0..nr)
                 .map(|_| RPlan { reads: rng.range(1, 3) as u32, rechecks: if prop == "C02" { rng.range(1, 3) as u32 } else { rng.below(2) as u32 }, hold_iter: rng.chance(1, 2) })
                 .collect();
-            (Scenario::Bank { writers, readers }, nw + nr)
+            let mut infos: Vec<TaskInfo> = vec![];
+            for w in &writers {
+                let commits = w.iter().filter(|t| !t.abort).count() as u32;
+                let n = w.len() as u32;
+                let sp = w.iter().filter(|t| t.savepoint || t.drop_savepoint).count() as u32;
+                let ops: u32 = w.iter().map(|t| 2 + t.ins.len() as u32 + t.rem.len() as u32).sum();
+                infos.push(TaskInfo { calls: 2 * n + sp + ops, boundary: 2 * n + sp, commits, begin_reads: 0, begin_writes: n });
+            }
+            for r in &readers {
+                infos.push(TaskInfo { calls: r.reads * (3 + r.rechecks), boundary: 2 * r.reads, commits: 0, begin_reads: r.reads, begin_writes: 0 });
+            }
+            (Scenario::Bank { writers, readers }, infos)
         }
         1 => {
             let nt = rng.range(2, 4) as usize;
-            let tables = (0..nt)
+            let tables: Vec<Vec<SOp>> = (0..nt)
                 .map(|_| {
                     (0..rng.range(1, 8))
                         .map(|_| match rng.below(10) {
@@ -850,18 +995,38 @@ pub fn draw_plan(seed: u64, exec: u64, prop: &str, thorough: bool) -> Plan {
                 })
                 .collect();
             let sp_concurrent = rng.chance(1, 2);
-            (
-                Scenario::Shared { tables, prefill: rng.range(0, 10) as u32, sp_concurrent, sp_drop_racing: rng.chance(1, 3), abort: rng.chance(1, 5), durable: rng.chance(3, 4) },
-                nt + sp_concurrent as usize,
-            )
+            let mut infos: Vec<TaskInfo> = tables.iter().map(|ops: &Vec<SOp>| TaskInfo { calls: 1 + ops.len() as u32, boundary: 0, commits: 0, begin_reads: 0, begin_writes: 0 }).collect();
+            if sp_concurrent {
+                infos.push(TaskInfo { calls: 1, boundary: 1, commits: 0, begin_reads: 0, begin_writes: 0 });
+            }
+            (Scenario::Shared { tables, prefill: rng.range(0, 10) as u32, sp_concurrent, sp_drop_racing: rng.chance(1, 3), abort: rng.chance(1, 5), durable: rng.chance(3, 4) }, infos)
+        }
+        3 => {
+            let ops: Vec<(u64, u32)> = (0..rng.range(0, 4)).map(|_| (rng.below(40), *rng.pick(&[10u32, 300, page_size + 9]))).collect();
+            let savepoint = rng.chance(1, 2);
+            let reader = !savepoint && rng.chance(1, 2);
+            let commit = rng.chance(3, 4);
+            let infos = vec![
+                TaskInfo { calls: 3 + ops.len() as u32, boundary: 2 + savepoint as u32, commits: commit as u32, begin_reads: 0, begin_writes: 0 },
+                TaskInfo { calls: 1, boundary: 1, commits: 0, begin_reads: 0, begin_writes: 0 },
+            ];
+            (Scenario::Compact { ops, prefill: rng.range(0, 40) as u32, savepoint, reader, commit }, infos)
         }
         _ => {
-            let ops = (0..rng.range(1, 5)).map(|_| (rng.below(16), *rng.pick(&[10u32, 300, page_size + 9]))).collect();
+            let ops: Vec<(u64, u32)> = (0..rng.range(1, 5)).map(|_| (rng.below(16), *rng.pick(&[10u32, 300, page_size + 9]))).collect();
             let reader = rng.chance(1, 2);
-            (Scenario::Lifecycle { ops, reader, commit: rng.chance(3, 4) }, 2 + reader as usize)
+            let commit = rng.chance(3, 4);
+            let mut infos = vec![
+                TaskInfo { calls: 1 + ops.len() as u32, boundary: 1, commits: commit as u32, begin_reads: 0, begin_writes: 0 },
+                TaskInfo { calls: 1, boundary: 1, commits: 0, begin_reads: 0, begin_writes: 0 },
+            ];
+            if reader {
+                infos.push(TaskInfo { calls: 2, boundary: 1, commits: 0, begin_reads: 0, begin_writes: 0 });
+            }
+            (Scenario::Lifecycle { ops, reader, commit }, infos)
         }
     };
-    let sched = draw_sched(&mut rng, ntasks, thorough);
+    let sched = draw_sched(&mut rng, &ntasks, thorough);
     Plan { page_size, region_pages, cache, scenario, sched }
 }
 
@@ -903,6 +1068,7 @@ pub fn run_plan(plan: &Plan) -> ExecResult {
                 shared(&p, tables, *prefill, *sp_concurrent, *sp_drop_racing, *abort, *durable, &out2)
             }
             Scenario::Lifecycle { ops, reader, commit } => lifecycle(&p, ops, *reader, *commit, &out2),
+            Scenario::Compact { ops, prefill, savepoint, reader, commit } => compact_race(&p, ops, *prefill, *savepoint, *reader, *commit, &out2),
         });
     }));
     let st = LAST_STATS.with(|s| s.borrow().clone());
@@ -914,11 +1080,14 @@ pub fn run_plan(plan: &Plan) -> ExecResult {
         let prop = match plan.scenario {
             Scenario::Shared { .. } => "C16",
             Scenario::Lifecycle { .. } => "C20",
+            Scenario::Compact { .. } => "C13",
             _ => "C03",
         };
         if msg.contains("deadlock") {
             deadlock = true;
             viols.insert(0, Viol { prop: "C03".into(), tag: "deadlock".into(), detail: format!("every task is blocked (lost wake-up or lock cycle): {msg}") });
+        } else if (msg.contains("exceeded max_steps") || msg.contains("max_steps")) && matches!(plan.scenario, Scenario::Compact { .. }) {
+            viols.insert(0, Viol { prop: "C13".into(), tag: "unbounded".into(), detail: format!("the compaction race did not finish within the step budget (compact() keeps committing without terminating): {msg}") });
         } else if msg.contains("exceeded max_steps") || msg.contains("max_steps") {
             viols.insert(0, Viol { prop: "HARNESS".into(), tag: "max-steps".into(), detail: msg });
         } else {
@@ -960,10 +1129,12 @@ fn minimise(rep: &Replay, max_secs: u64) -> Replay {
             Scenario::Bank { writers, readers } => writers.len() + readers.len(),
             Scenario::Shared { tables, sp_concurrent, .. } => tables.len() + *sp_concurrent as usize,
             Scenario::Lifecycle { reader, .. } => 2 + *reader as usize,
+            Scenario::Compact { .. } => 2,
         };
+        let infos: Vec<TaskInfo> = (0..ntasks.max(1)).map(|_| TaskInfo { calls: 12, boundary: 4, commits: 2, begin_reads: 2, begin_writes: 2 }).collect();
         for _ in 0..60 {
             let mut p2 = plan.clone();
-            p2.sched = draw_sched(&mut rng, ntasks.max(1), false);
+            p2.sched = draw_sched(&mut rng, &infos, false);
             let r = run_plan(&p2);
             if let Some(v) = r.viols.first()
                 && same_class(v, &rep.expect)
@@ -1022,6 +1193,16 @@ fn minimise(rep: &Replay, max_secs: u64) -> Replay {
                 }
                 if *prefill > 0 {
                     cands.push(Plan { scenario: Scenario::Shared { tables: tables.clone(), prefill: 0, sp_concurrent: *sp_concurrent, sp_drop_racing: *sp_drop_racing, abort: *abort, durable: *durable }, ..best.plan.clone() });
+                }
+            }
+            Scenario::Compact { ops, prefill, savepoint, reader, commit } => {
+                for i in 0..ops.len() {
+                    let mut o = ops.clone();
+                    o.remove(i);
+                    cands.push(Plan { scenario: Scenario::Compact { ops: o, prefill: *prefill, savepoint: *savepoint, reader: *reader, commit: *commit }, ..best.plan.clone() });
+                }
+                if *prefill > 0 {
+                    cands.push(Plan { scenario: Scenario::Compact { ops: ops.clone(), prefill: prefill / 2, savepoint: *savepoint, reader: *reader, commit: *commit }, ..best.plan.clone() });
                 }
             }
             Scenario::Lifecycle { ops, reader, commit } => {
@@ -1114,12 +1295,35 @@ pub fn cli(args: &[String]) -> i32 {
             std::fs::write(&out, serde_json::to_string_pretty(&rep).unwrap()).unwrap();
             0
         }
+        Some("probe") => {
+            // scratch: sweep the stall point inside the writer's 2nd commit
+            let mk = |durable: bool| WTxn { durable, two_phase: false, quick_repair: false, abort: false, savepoint: false, drop_savepoint: false, ins: vec![(1, 300), (2, 700)], rem: vec![] };
+            let mut hits = 0;
+            for point in (0..4000u32).step_by(7) {
+                let plan = Plan {
+                    page_size: 512,
+                    region_pages: Some(64),
+                    cache: 1 << 20,
+                    scenario: Scenario::Bank { writers: vec![vec![mk(false), mk(true)]], readers: vec![RPlan { reads: 1, rechecks: 0, hold_iter: false }] },
+                    sched: SchedPlan::Stall { seed: 7, stalls: vec![crate::stall::Stall { victim: 1, nth: 2, kind: Some(K_COMMIT), point, release_after: 1000, hold: Some(2) }] },
+                };
+                let r = run_plan(&plan);
+                if let Some(v) = r.viols.first() {
+                    hits += 1;
+                    println!("point {point}: {} {} {}", v.prop, v.tag, &v.detail[..v.detail.len().min(120)]);
+                } else if point % 700 == 0 {
+                    println!("point {point}: none (stalls fired {}, steps {})", r.stalls_fired, r.steps);
+                }
+            }
+            println!("hits {hits}");
+            0
+        }
         Some("determinism") => {
             // every plan executed twice must take the same interleaving and reach the same verdict
             let n: u64 = get("--execs").and_then(|s| s.parse().ok()).unwrap_or(200);
             let seed = std::env::var("VERIF_SEED").ok().and_then(|s| s.parse().ok()).unwrap_or(20260922u64);
             let mut bad = 0;
-            for prop in ["C03", "C02", "C16", "C20"] {
+            for prop in ["C03", "C02", "C16", "C20", "C13"] {
                 for e in 0..n {
                     let plan = draw_plan(seed, e, prop, true);
                     let a = run_plan(&plan);
@@ -1130,7 +1334,7 @@ pub fn cli(args: &[String]) -> i32 {
                     }
                 }
             }
-            println!("determinism: {} plans x2, {bad} divergences", 4 * n);
+            println!("determinism: {} plans x2, {bad} divergences", 5 * n);
             if bad > 0 { 2 } else { 0 }
         }
         _ => {
@@ -1213,6 +1417,7 @@ fn explore(prop: &str, tier: &str, execs: u64, max_secs: u64, threads: usize, st
                         Scenario::Bank { .. } => "bank",
                         Scenario::Shared { .. } => "shared-write-transaction",
                         Scenario::Lifecycle { .. } => "lifecycle",
+                        Scenario::Compact { .. } => "compaction-race",
                     };
                     *a.by_scenario.entry(sc.into()).or_default() += 1;
                     if r.switches > 0 {
